@@ -4,12 +4,15 @@
    are configured alike (symmetry). *)
 EXTENDS SshChanLife, TLC
 Init == \E a \in {<<TRUE, TRUE>>, <<TRUE, FALSE>>, <<FALSE, FALSE>>} : InitWith([auto |-> a])
-MaxOpen == 2
-MaxLevel == 8
+CONSTANTS MaxOpen, MaxReq, MaxLevel
 Useful(s, c) == C(s, c).st = "open" /\ ~C(s, c).lc
 MCReqs == {<<"ok", 1>>, <<"defer", 1>>, <<"no", 1>>, <<"none", 0>>}
+MCEof(s, c) == Useful(s, c) /\ Eof(s, c)
+MCWrite(s, c) == Useful(s, c) /\ Write(s, c)
+MCRequest(s, c, kw) == Useful(s, c) /\ Request(s, c, kw[1], kw[2])
+MCOpen(s, k) == ((cnt.open = 0 /\ cfg.auto[1] = cfg.auto[2]) => s = 1) /\ Open(s, k)
 MCNext ==
-    \/ \E s \in S, k \in {"ok", "bad"} : ((cnt.open = 0 /\ cfg.auto[1] = cfg.auto[2]) => s = 1) /\ Open(s, k)
+    \/ \E s \in S, k \in {"ok", "bad"} : MCOpen(s, k)
     \/ \E s \in S : DeliverOpen(s)
     \/ \E s \in S : DeliverConf(s)
     \/ \E s \in S : DeliverFail(s)
@@ -17,14 +20,14 @@ MCNext ==
     \/ \E s \in S : DeliverClose(s)
     \/ \E s \in S : DeliverReq(s)
     \/ \E s \in S : DeliverReply(s)
-    \/ \E s \in S : \E c \in Ids(s) : Useful(s, c) /\ Eof(s, c)
-    \/ \E s \in S : \E c \in Ids(s) : Useful(s, c) /\ Write(s, c)
+    \/ \E s \in S : \E c \in Ids(s) : MCEof(s, c)
+    \/ \E s \in S : \E c \in Ids(s) : MCWrite(s, c)
     \/ \E s \in S : \E c \in Ids(s) : Close(s, c)
-    \/ \E s \in S : \E c \in Ids(s) : \E kw \in MCReqs : Useful(s, c) /\ Request(s, c, kw[1], kw[2])
+    \/ \E s \in S : \E c \in Ids(s) : \E kw \in MCReqs : MCRequest(s, c, kw)
     \/ \E s \in S : \E c \in Ids(s) : \E i \in 1..Len(C(s, c).pend), ok \in {0, 1} : Resolve(s, c, i, ok)
     \/ \E s \in S : Stop(s)
 Spec == Init /\ [][MCNext]_vars
-Bound == /\ cnt.open <= MaxOpen /\ cnt.eof <= 1 /\ cnt.wr <= 1 /\ cnt.req <= 2
+Bound == /\ cnt.open <= MaxOpen /\ cnt.eof <= 1 /\ cnt.wr <= 1 /\ cnt.req <= MaxReq
          /\ TLCGet("level") <= MaxLevel
 View == <<cfg, ch, q, stopped, oorder, dfr, cnt>>
 StepProp == [][StepOK]_vars
